@@ -92,6 +92,12 @@ CALLBACK_FORMS = [
     ("finally-part", "do 1 finally {F} end"), ("catch-handler", "do error 'inner-x' catch 'inner-x' {F} end"),
     ("nested-sorted", "sorted([[2], [1]], key = fn(l) sorted(l, cmp = fn(a, b) {F}))"), ("nested-sorted2", "sorted([[2, 3], [1, 4]], key = fn(l) sorted(l, cmp = fn(a, b) {F}))"),
 ]
+MODULE_FORMS = [
+    ("module-top-level", "require {MOD}"), ("module-top-level-as", "require {MOD} as M_"), ("module-top-level-import", "require {MOD} import [before_]"),
+    ("module-top-level-unqualified", "require {MOD} unqualified"), ("module-required-by-module", "require {MOD}outer"),
+    ("module-function", "{LATE}require {MOD}; {MOD}->run_()"), ("module-function-unqualified", "{LATE}require {MOD} unqualified; run_()"),
+    ("module-in-function", "def ld_() do require {MOD} end; ld_()"), ("module-in-callback", "map_list([1], fn(x) do require {MOD}; x end)"),
+]
 CALLBACK_ERRVALS = ["'E1'", "'ERROR'", "12", "1.5", "[1, 'a']", "<<1>>", "<<<'k' => 1>>>", "TRUE", "NULL", "date('20200101')", "//a//", "''"]
 
 
@@ -107,11 +113,37 @@ def run_callbacks(spec, ctx):
     def ev(src):
         env = ckl.functions.Environment()
         return core.observe(lambda: it.interpret(pre + src, "c05cb", env), 2000000)
+    # module code is a place an error can come from as well: top-level code of a required module, of a module that
+    # module requires, a function of a loaded module; every instantiation gets module files of its own
+    import tempfile
+    import ckl.values as V
+    moddir = tempfile.mkdtemp(prefix="cklverif-C05-mods-")
+    mp = V.ValueList()
+    mp.addItem(V.ValueString(moddir))
+    it.base_environment.put("checkerlang_module_path", mp)
+    modcount = [0]
+
+    def with_modules(form, body):
+        """-> program text; writes the module files the form names"""
+        if "{MOD}" not in form:
+            return form.replace("{F}", body)
+        modcount[0] += 1
+        m = "c05m%d%s" % (modcount[0], "l" if legacy else "n")
+        with open(os.path.join(moddir, m + ".ckl"), "w") as f:
+            f.write("def before_ = 1;\n%s;\ndef after_ = 2;\ndef run_() do %s end;\n" % (body if "{LATE}" not in form else "0", body))
+        with open(os.path.join(moddir, m + "outer.ckl"), "w") as f:
+            f.write("def outer_before_ = 1;\nrequire %s;\ndef outer_after_ = 2;\n" % m)
+        return form.replace("{LATE}", "").replace("{MOD}", m)
     usable = []
-    for name, form in CALLBACK_FORMS:
+    for name, form in CALLBACK_FORMS + MODULE_FORMS:
         # a form counts only if, with a harmless body, it evaluates and the body really ran
         ok_ = False
         for harmless in ("1", "TRUE"):
+            if "{MOD}" in form:
+                # (module code cannot see the program's `hits`: usable if the harmless variant loads)
+                o = ev(with_modules(form, harmless))
+                ok_ = ok_ or o.kind == "value"
+                continue
             o = ev("def hits = []; %s; length(hits)" % form.replace("{F}", "do append(hits, 1); %s end" % harmless))
             if o.kind == "value" and core.safe_str(o.value) not in ("0", "NULL"):
                 ok_ = True
@@ -124,11 +156,13 @@ def run_callbacks(spec, ctx):
     for name, form in usable:
         for vi, v in enumerate(CALLBACK_ERRVALS):
             other = CALLBACK_ERRVALS[(vi + 1) % len(CALLBACK_ERRVALS)]
-            f = form.replace("{F}", "error %s" % v)
-            cases = [("matching-catch", "do %s catch %s 'handled' end" % (f, v), ("value", "'handled'")),
-                     ("passes-other-catch", "do do %s catch %s 'wrong' end catch %s 'outer' end" % (f, other, v), ("value", "'outer'")),
-                     ("finally-once", "def n = 0; do do %s finally n += 1 end catch %s n end" % (f, v), ("value", "1")),
-                     ("uncaught", f, ("error", None))]
+            def fresh():
+                return with_modules(form, "error %s" % v)
+            cases = [("matching-catch", "do %s catch %s 'handled' end" % (fresh(), v), ("value", "'handled'")),
+                     ("passes-other-catch", "do do %s catch %s 'wrong' end catch %s 'outer' end" % (fresh(), other, v), ("value", "'outer'")),
+                     ("finally-once", "def n = 0; do do %s finally n += 1 end catch %s n end" % (fresh(), v), ("value", "1")),
+                     ("statements-after-do-not-run", "def ran = 'no'; do do %s; ran = 'yes' end catch %s ran end" % (fresh(), v), ("value", "'no'")),
+                     ("uncaught", fresh(), ("error", None))]
             for tag, src, want in cases:
                 o = ev(src)
                 ctx.count("callback_error_programs")
@@ -147,6 +181,8 @@ def run_callbacks(spec, ctx):
                     ctx.violation("C05:callback-error:%s:%s" % (name, tag),
                                   "%s -> %s %s (expected %s)" % (src, o.kind, core.safe_str(o.value if o.kind == "value" else getattr(o.exc, "value", o.exc), 100),
                                                                 want[1] or "an error carrying " + v), {"src": src})
+    import shutil
+    shutil.rmtree(moddir, ignore_errors=True)
 
 
 def run_shard(spec, ctx):
